@@ -132,7 +132,7 @@ func c15Session(args []string, _ []byte) string {
 	}
 	ctx, cancel := context.WithCancel(context.Background())
 	defer cancel()
-	const T = 10 * time.Second
+	const T = 30 * time.Second // generous: frames of several hundred KiB on a machine that may be saturated
 	switch spec.Topology {
 	case "lib-lib":
 		srv := client.NewCqlServer("127.0.0.1:0", creds)
@@ -576,6 +576,7 @@ func c15Property(rt *rapid.T) {
 	}
 	sj, _ := json.Marshal(spec)
 	verdict := isolated("c15session", []string{string(sj)}, nil)
+	verdict = harnessTrouble(verdict)
 	desc := func() string {
 		var sizes []string
 		for _, ex := range spec.Exchanges {
